@@ -157,6 +157,15 @@ func seedByName(name string) *GenomeSpec {
 	case "modular":
 		// a start genome with a module whose gene carries the number right after the last connection gene
 		return modularSeed(true)
+	case "modular3":
+		// a module of which only one input node has a connection gene; the other two and the module's second
+		// output are attached through the control gene only (a mated child gets them as "extra" nodes)
+		g := xorSeed()
+		act := xorSeed().Nodes[3].Act
+		g.Nodes = append(g.Nodes, NodeSpec{5, network.HiddenNeuron, act, 2}, NodeSpec{6, network.HiddenNeuron, act, 0}, NodeSpec{7, network.HiddenNeuron, act, 1}, NodeSpec{8, network.HiddenNeuron, act, 0})
+		g.Genes = append(g.Genes, GeneSpec{In: 2, Out: 5, W: 1.0 / 3, Innov: 4, Mut: 1.0 / 3, En: true, Trait: 2})
+		g.Modules = []ModuleSpec{{Innov: 5, Mut: 5.5, En: true, NodeID: 9, Act: 21, Trait: 1, Inputs: []int{5, 8, 6, 7}, Outputs: []int{4}, InW: []float64{1, 1, 1, 1}, OutW: []float64{1}}}
+		return g
 	case "traits132":
 		// trait ids that are not an ascending run (as in the library's own test genome), nodes on non-first traits
 		g := evolvedSeed()
